@@ -70,5 +70,7 @@ def base_surface(rng, nx, ny, symmetry, name="wing", right=False, fem="tube", **
 
 def sizes(tier, kind="small"):
     if tier == "thorough":
-        return [(nx, ny) for nx in (2, 3, 4, 5) for ny in (2, 3, 4, 5, 7, 9)]
+        # twice the quick grid plus larger and more slender lattices; kept small enough that the dense dual-number Jacobians of
+        # all 73 components finish in tens of minutes
+        return [(2, 2), (2, 3), (3, 2), (3, 4), (2, 5), (4, 3), (5, 2), (3, 3), (4, 5), (3, 7), (2, 9), (5, 4)]
     return [(2, 2), (2, 3), (3, 2), (3, 4), (2, 5), (4, 3)]
